@@ -21,11 +21,11 @@ section proj
 variable (c : Config) (s : State) (i : In)
 theorem step_rx : (step c s i).1.rx = RawRx.step s.rx i.sink s.expSeq := rfl
 theorem step_expSeq : (step c s i).1.expSeq =
-    if resetNow c s i && i.usbReset then 0 else if accept s then (s.expSeq + 1) % 8 else s.expSeq := rfl
+    if resetNow c s i && i.usbReset then 0 else if resetNow c s i && c.fix then s.expSeq else if accept s then (s.expSeq + 1) % 8 else s.expSeq := rfl
 theorem step_nextCredit : (step c s i).1.nextCredit =
     if resetNow c s i then 0 else if lcrdDone s i then (s.nextCredit + 1) % 4 else s.nextCredit := rfl
 theorem step_nextAck : (step c s i).1.nextAck =
-    if resetNow c s i then (if i.usbReset then 7 else (s.nextAck + 7) % 8)
+    if resetNow c s i then (if i.usbReset then 7 else if c.fix then (s.expSeq + 7) % 8 else (s.nextAck + 7) % 8)
     else if lgoodDone s i then (s.nextAck + 1) % 8 else s.nextAck := rfl
 theorem step_acks : (step c s i).1.acks =
     if resetNow c s i then 1 else updown s.acks (accept s) (lgoodDone s i) := rfl
